@@ -343,6 +343,10 @@ func buildIntrinsics() map[string]Intrinsic {
 			m.allocGuardBound = m.concreteInt(fr, a[1].(*Term), "alloc guard bound")
 			return nil
 		}
+		t[p+"vGhostFmtDigits"] = func(m *Machine, fr *Frame, fn *ssa.Function, a []Value) Value {
+			m.fmtDigits = a[0].(*Term).Val != 0
+			return nil
+		}
 		t[p+"vGhostAllocReset"] = func(m *Machine, fr *Frame, fn *ssa.Function, a []Value) Value {
 			m.allocLog = nil
 			m.symbolicAllocs = 0
@@ -1077,6 +1081,11 @@ func (m *Machine) formatArg(fr *Frame, verb byte, flags string, arg Value) strin
 	if verb == 'T' {
 		return iv.T.String()
 	}
+	if t, isT := iv.V.(*Term); isT && m.fmtDigits && !t.IsConst() && t.W >= 16 && (verb == 'd' || verb == 'v') {
+		if _, signed, isInt := intWidth(iv.T); isInt {
+			m.splitByDigits(fr, t, signed)
+		}
+	}
 	iv = m.sample(iv).(IfaceV)
 	// error / Stringer take precedence for the string-ish verbs
 	if verb == 'v' || verb == 's' || verb == 'w' || verb == 'q' {
@@ -1662,4 +1671,29 @@ func nativeUFBool(name string, args []string) (bool, bool) {
 		return err == nil && len(v) == 16, true
 	}
 	return false, false
+}
+
+// splitByDigits forks the path on the number of decimal digits (and the sign) of a symbolic integer about to be rendered
+// by fmt, so that the length of the rendered text is exact on every resulting path; the digits themselves are those of a
+// representative value of the class.
+func (m *Machine) splitByDigits(fr *Frame, t *Term, signed bool) {
+	x := t
+	if signed {
+		if m.Decide(fr, m.tf.Slt(t, m.tf.Const(t.W, 0))) {
+			x = m.tf.Neg(t)
+		}
+	}
+	pow := uint64(10)
+	for k := 1; k < 20; k++ {
+		if t.W < 64 && pow >= uint64(1)<<t.W {
+			return
+		}
+		if m.Decide(fr, m.tf.Ult(x, m.tf.Const(t.W, pow))) {
+			return
+		}
+		if pow > (1<<63)/5 { // 10^19 does not fit below 2^64 * ... : the last class is open-ended
+			return
+		}
+		pow *= 10
+	}
 }
